@@ -508,6 +508,11 @@ func run(p *hx.Plan) []hx.Event {
 			for _, sk := range hx.ML(st, "seek") {
 				seeks = append(seeks, &msgpb.MsgPosition{ChannelName: hx.S(sk, "ch"), MsgID: []byte(hx.S(sk, "id")), Timestamp: uint64(hx.I(sk, "ts"))})
 			}
+			if sts := hx.I(p.Params, "seek_ts"); sts > 0 && len(seeks) == 0 {
+				for _, v := range c.SrcV {
+					seeks = append(seeks, &msgpb.MsgPosition{ChannelName: pfake.ToP(v), MsgID: []byte("ckpt-" + pfake.ToP(v)), Timestamp: uint64(sts)})
+				}
+			}
 			startTs := map[string]uint64{}
 			for _, h := range hx.SL(st, "hold") {
 				e.disp.Hold(h)
@@ -527,6 +532,13 @@ func run(p *hx.Plan) []hx.Event {
 			err := e.mgr.AddPartition(e.taskCtx(), &model.DatabaseInfo{ID: 1, Name: c.DB}, c.pbInfo(),
 				&pb.PartitionInfo{PartitionID: c.Parts[pn][0], PartitionName: pn, CollectionId: c.ID, State: state, PartitionCreatedTimestamp: 2})
 			ev["c"], ev["p"], ev["err"] = c.Name, pn, err != nil
+			regd := []string{}
+			for _, v := range c.SrcV {
+				if e.disp.Registered(v) {
+					regd = append(regd, v)
+				}
+			}
+			ev["registered"] = regd
 		case "stop":
 			c := e.colls[hx.S(st, "c")]
 			err := e.mgr.StopReadCollection(e.taskCtx(), c.pbInfo())
